@@ -136,7 +136,8 @@ def production_rt(seed, n, api, prefix, wrong_every=0, passwords=None):
                 pw = bytes.fromhex(e["password_hex"])
                 # a near miss: one bit flipped, or a trailing NUL, or truncated
                 alt = [bytes([pw[0] ^ 1]) + pw[1:] if pw else b"\x01", pw + b"\x00", pw[:-1] if pw else b"x",
-                       pw + b"\x01"][(i // wrong_every) % 4]
+                       pw + b"\x01", pw + b"\n", pw + b"\r\n", pw + b" ", b" " + pw, pw.upper() if pw.upper() != pw else pw + b"A",
+                       pw.rstrip(b"\r\n") if pw.rstrip(b"\r\n") != pw else pw + b"\r"][(i // wrong_every) % 10]
                 d["wrong_password_hex"] = alt.hex()
                 from checks_keyring import hmac_equivalent
                 if hmac_equivalent(pw.hex(), alt.hex()):
@@ -214,7 +215,8 @@ def c01(pid, tier, seed, selftest=False):
 # --------------------------------------------------------------------------
 
 PASSWORDS = ["", "61", "70c3a4c39f776f7264e29c93", "00", "6100", "ff" * 64, "41" * 1024,
-             "70617373776f7264", "70617373776f7265"]
+             "70617373776f7264", "70617373776f7265",
+             "6861636b6d650a", "636166c3a90d", "70770d0a", "2070772009", "0a", "7077200a0a"]   # line endings / blanks at the ends
 
 
 def c02(pid, tier, seed, selftest=False):
@@ -250,7 +252,14 @@ def c02(pid, tier, seed, selftest=False):
         s["enc"]["password_hex"] = PASSWORDS[i % len(PASSWORDS)]
         s["enc"]["kseed"] = 1 + i % 4
     scenarios += api
-    scenarios += production_rt(seed, 360 if thorough else 36, "pass", "p.", wrong_every=3, passwords=PASSWORDS)
+    scenarios += production_rt(seed, 600 if thorough else 90, "pass", "p.", wrong_every=3, passwords=PASSWORDS)
+    # the known finding (HMAC-equivalent passwords) is exercised on purpose, so that it stays visible
+    for j, (pw, other) in enumerate([("61", "6100"), ("", "00"), ("ff" * 65, __import__("hashlib").sha256(b"\xff" * 65).hexdigest())]):
+        sid = "q.%d.hmaceq" % j
+        scenarios.append({"op": "rt", "id": sid,
+                          "enc": {"op": "enc", "api": "pass", "aad": "pass", "cs": 65536, "plen": 70000, "rs": [], "ws": [], "fs": [],
+                                  "kseed": 900 + j, "pseed": 3, "id": sid, "password_hex": pw},
+                          "dec": {"rs": [], "ws": [], "fs": [], "wrong_key": True, "wrong_password_hex": other}})
     account(rep, scenarios)
     for s in scenarios[:1] + scenarios[-3:]:
         rep.sample(s)
